@@ -50,6 +50,26 @@ NEEDS = {
  'C18-b': ('C18', ['C14'], 'TexArgs.remove finds the identical object first: remove(args[2]) with an equal group earlier removes the later one, unlike list.remove'),
  'C19-b': ('C19', ['C06', 'C08'], 'next_token makes a single pass over the tokenizers: after tokenize_ignore consumed NUL/DEL at a token boundary, a following `%` or `$` ends the token stream silently'),
  'C20-b': ('C20', [], 'Buffer.num_forward_until is rewritten on top of forward_until and counts characters instead of items: wrong count and rewind on token-backed buffers with multi-character tokens'),
+ 'C01-c': ('C01', ['C11'], 'a missing comma joins two literals of SKIP_ENV_NAMES: `listing` is no longer verbatim-like (the generated table follows the code, so model and code agree; the TableSpec theorem builtin_verbatim_names breaks)'),
+ 'C02-c': ('C02', ['C19', 'C09'], 'categorize gets a str.isalpha() fast path: non-ASCII letters become Letter, so `\\itemÉcole` is one command name and `\\é` a command'),
+ 'C03-c': ('C03', ['C04', 'C02'], 'read_item ends the item by a prefix test on the text (`\\end`, `\\item`): `\\itemsep`, `\\endnote` … end the item body, later nodes become siblings and searches rooted at the item miss them'),
+ 'C04-c': ('C04', ['C03'], 'TexExpr.children = expressions whose name is not `text`: a command or environment literally named `text` (amsmath `\\text{..}`) drops out of children/descendants/search'),
+ 'C05-c': ('C05', ['C15'], 'string pieces containing a backslash are parsed before being stored: `\\ref {fig}` is stored as `\\ref{fig}`, `\\textbf a` as `\\textbf{ a}`, unbalanced fragments raise'),
+ 'C06-c': ('C06', ['C07'], 'unclosed_env_handler concatenates input tokens into the format template: a mismatched `\\end{b}%` raises ValueError (incomplete format) instead of EOFError'),
+ 'C07-c': ('C07', ['C08', 'C16'], 'read_env strips the name of `\\end{ a }` before comparing: the padded closer is accepted and printed canonically, so the tolerant output is not the input plus closers'),
+ 'C08-c': ('C08', ['C09', 'C10'], 'read_spacer also swallows a comment + line break in front of a group: `\\textit% slanted\\n{b}` loses the comment on output'),
+ 'C09-c': ('C09', ['C16'], 'the signature table is looked up with the star stripped: `\\section*{A}{B}` attaches only `{A}`'),
+ 'C10-c': ('C10', ['C19', 'C13'], 'form feed and vertical tab are filed under EndOfLine: a comment stops at the first FF/VT of its payload'),
+ 'C11-c': ('C11', ['C12'], 'math-environment names take precedence over skip_envs: `skip_envs=(\'equation\',)` is ignored'),
+ 'C12-c': ('C12', ['C02'], '`\\begin` is matched as an environment only in non-math mode: an environment nested directly in a math region (split in equation, array in \\[..\\]) is a plain command / EOFError'),
+ 'C13-c': ('C13', ['C19'], 'CharToLineOffset builds its table with str.splitlines(): FF, VT, FS-RS, NEL, U+2028/2029 count as line ends'),
+ 'C14-c': ('C14', ['C18'], 'the args setter clears and re-extends the existing list: assigning a node its own (edited) argument list empties it'),
+ 'C15-c': ('C15', ['C05'], 'TexExpr.insert skips an empty string piece but still advances the index: later pieces of the same call land one slot too far right'),
+ 'C16-c': ('C16', ['C08'], 'TexCmd.__str__ puts a blank between an argument-less `\\item` and a body that starts with a letter (str.isalpha): `\\item中文` gains a blank on save 1 that is part of the text on load 2'),
+ 'C17-c': ('C17', ['C16'], 'TexGroup.parse is memoised (lru_cache): bare arguments of fixed-signature commands (`\\section Intro`) are one shared mutable object across all trees of the process'),
+ 'C18-c': ('C18', ['C14'], 'extend(other TexArgs) reads other.all: wrong order after insert(0, ..) / shared objects, whitespace copied'),
+ 'C19-c': ('C19', ['C08'], 'categorize merges a high+low surrogate pair into the astral character it encodes: one token fewer than characters, foreign code point in the output'),
+ 'C20-c': ('C20', [], 'Buffer.__next__ fetches the gap after a forward() jump with one list comprehension: items are lost when the iterator ends inside it'),
 }
 
 
